@@ -25,8 +25,12 @@ import CpModel.Gen.C19Tables
   every MD5-sess header was rejected with 400).  It mirrors the *unrepaired* behaviour for
   `qop=auth-int`, where `H(entity_body)` is applied to the `RequestBody` object: `TypeError`, i.e. 500 (finding F21).
 
-  Not modelled: RFC 2047 decoding and `strip()` of the header value in `Request.process_headers` (the model starts
-  at `request.headers.get('authorization')`), HTTPError → page rendering, `debug` logging, `get_ha1_file_htdigest` on files with malformed lines.
+  `Request.process_headers` for one header value (`strip()`, then RFC 2047 decoding iff `=?` occurs) is modelled at
+  the end of this file (`processHeader`, `digestRequest`, `basicRequest`) with the decoder itself
+  (`email.header.decode_header` + charset decoding) as a parameter.
+
+  Not modelled: HTTPError → page rendering, `debug` logging (the harness runs every configuration with and without
+  `debug` against the same model), `get_ha1_file_htdigest` on files with malformed lines.
 -/
 namespace CpModel.Auth
 open CpModel.Gen.C19
@@ -431,5 +435,44 @@ def digestAuth (P : Prims) (cfg : DigestCfg) (method : Str) (now : Int) (hdr : O
         if digest ≠ fmtOpt a.response then respond401 P cfg now false
         else if isNonceStale (fmtOpt a.nonce) 600 now then respond401 P cfg now true
         else .grant (fmtOpt a.username)
+
+/-! ## From the wire to `request.headers` (`Request.process_headers`, one header value)
+
+  `value = value.strip()`, then `httputil.decode_TEXT_maybe(value)`: the RFC 2047 decoder runs **iff** `'=?'` occurs
+  in the stripped value; `LookupError` / `ValueError` / `MessageError` of the decoder are answered with 400 before any
+  tool runs.  The decoder itself (`email.header.decode_header` + charset decoding) is a parameter `decodeText`
+  (`none` = one of those exceptions). -/
+
+/-- `'=?' in value` -/
+def hasEncMarker : Str → Bool
+  | [] => false
+  | c :: cs =>
+    match cs with
+    | [] => false
+    | d :: _ => (c = '=' && d = '?') || hasEncMarker cs
+
+/-- what `request.headers.get('authorization')` holds for the raw header value `raw` (the WSGI server's Latin-1
+    view of the bytes); `none` = HTTPError 400 raised by `process_headers` -/
+def processHeader (decodeText : Str → Option Str) (raw : Str) : Option Str :=
+  let v := pyStrip raw
+  if hasEncMarker v then decodeText v else some v
+
+/-- the whole request as far as authentication goes: header processing, then the tool -/
+def digestRequest (P : Prims) (decodeText : Str → Option Str) (cfg : DigestCfg) (method : Str) (now : Int)
+    (raw : Option Str) : Outcome :=
+  match raw with
+  | none => digestAuth P cfg method now none
+  | some r =>
+    match processHeader decodeText r with
+    | none => .badRequest
+    | some h => digestAuth P cfg method now (some h)
+
+def basicRequest (P : Prims) (decodeText : Str → Option Str) (cfg : BasicCfg) (raw : Option Str) : Outcome :=
+  match raw with
+  | none => basicAuth P cfg none
+  | some r =>
+    match processHeader decodeText r with
+    | none => .badRequest
+    | some h => basicAuth P cfg (some h)
 
 end CpModel.Auth
